@@ -273,6 +273,151 @@ MOP(direct) {
     return "x=" + show(xl) + " again x=" + show(x2);
 }
 
+// ---------------------------------------------------------------- block value types (static_matrix<double,2,2>)
+// bsolve <k=v ...> -- <b> A parts f x0 repeat : the same make_solver< mpi::amg<...>, runtime solver > at
+//   Backend = builtin<static_matrix<double,2,2>>, rhs entries static_matrix<double,2,1>
+// (recording<runtime coarsening>, runtime relaxation, skyline_lu<block>, merge).  A: block crs (nrows ncols (k (col q^4)*k)*nrows),
+// parts: partition of the BLOCK rows, f / x0: n*b numbers.  Report as for `solve`: it / res / bits (twice), the rank's slice of x
+// (flattened), and the strips of A, P, R, A_c of every level as BLOCK matrices {n m | c:v,v,v,v ...} (sorted by column).
+// Block products do not commute: the distributed Galerkin product R (A P) with smoothed aggregation depends on the operand
+// order inside mpi::product (local x local, local x remote, remote x rows received from the neighbours).
+#include <amgcl/value_type/static_matrix.hpp>
+namespace blk {
+static const int N = 2;
+typedef amgcl::static_matrix<double, N, N> V;
+typedef amgcl::static_matrix<double, N, 1> Rh;
+typedef amgcl::backend::builtin<V> BBackend;
+typedef amgcl::mpi::distributed_matrix<BBackend> BDM;
+typedef amgcl::backend::crs<V> BMat;
+
+static std::shared_ptr<BMat> bcrs(Tok &t) {
+    long n = t.i(), m = t.i();
+    std::vector<ptrdiff_t> ptr(1, 0), col; std::vector<V> vl;
+    for (long r = 0; r < n; ++r) {
+        long k = t.i();
+        for (long e = 0; e < k; ++e) { col.push_back(t.i()); V v; for (int c = 0; c < N * N; ++c) v(c) = t.d(); vl.push_back(v); }
+        ptr.push_back((ptrdiff_t)col.size());
+    }
+    auto A = std::make_shared<BMat>();
+    A->set_size(n, m, false);
+    A->ptr[0] = 0;
+    for (long r = 0; r < n; ++r) A->ptr[r+1] = ptr[r+1];
+    A->set_nonzeros(col.size(), true);
+    for (size_t e = 0; e < col.size(); ++e) { A->col[e] = col[e]; A->val[e] = vl[e]; }
+    return A;
+}
+static std::vector<Rh> bvec(Tok &t) {
+    long n = t.i(); if (n % N) throw std::runtime_error("block vector length");
+    std::vector<Rh> v(n / N);
+    for (long i = 0; i < n / N; ++i) for (int k = 0; k < N; ++k) v[i](k) = t.d();
+    return v;
+}
+static std::string show_blk(const V &v) {
+    std::ostringstream os; for (int k = 0; k < N * N; ++k) { if (k) os << ","; os << show((double)v(k)); } return os.str();   // ';' separates the ranks
+}
+static std::string show_bvec(const std::vector<Rh> &v) {
+    std::ostringstream os; os << "[";
+    for (size_t i = 0; i < v.size(); ++i) for (int k = 0; k < N; ++k) { if (i || k) os << " "; os << show((double)v[i](k)); }
+    os << "]"; return os.str();
+}
+static std::shared_ptr<BDM> dist(const BMat &A, const Parts &p) {
+    if (p.total != (long)A.nrows || p.total != (long)A.ncols) throw std::runtime_error("partition does not cover the matrix");
+    long rb = p.b(world.rank), re = p.e(world.rank);
+    BMat S; S.set_size(re - rb, A.ncols, false); S.ptr[0] = 0;
+    for (long i = rb; i < re; ++i) S.ptr[i - rb + 1] = S.ptr[i - rb] + (A.ptr[i+1] - A.ptr[i]);
+    S.set_nonzeros(S.ptr[re - rb], true);
+    for (long i = rb, h = 0; i < re; ++i)
+        for (ptrdiff_t j = A.ptr[i]; j < A.ptr[i+1]; ++j, ++h) { S.col[h] = A.col[j]; S.val[h] = A.val[j]; }
+    return std::make_shared<BDM>(world, S, p.n(world.rank));
+}
+// strip with global columns, entries sorted by (column, printed block)
+static std::string show_strip(const BDM &A) {
+    if (!A.local() || !A.remote()) return "{gone}";
+    auto &L = *A.local(); auto &R = *A.remote();
+    long n = A.loc_rows(), shift = A.loc_col_shift(), gc = A.glob_cols();
+    std::ostringstream os; os << "{" << n << " " << gc;
+    for (long i = 0; i < n; ++i) {
+        os << " |";
+        std::vector<std::pair<long, std::string> > es;
+        for (ptrdiff_t j = L.ptr[i]; j < L.ptr[i+1]; ++j) es.push_back(std::make_pair((long)L.col[j] + shift, show_blk(L.val[j])));
+        for (ptrdiff_t j = R.ptr[i]; j < R.ptr[i+1]; ++j) {
+            long c = R.col[j];
+            if (c < 0 || c >= gc || (c >= shift && c < shift + (long)L.ncols)) return "BADDM remote-col";
+            es.push_back(std::make_pair(c, show_blk(R.val[j]))); }
+        std::sort(es.begin(), es.end());
+        for (auto &e : es) os << " " << e.first << ":" << e.second;
+    }
+    os << "}"; return os.str();
+}
+template <class C>
+struct recording {
+    typedef typename C::params params;
+    C base;
+    recording(const params &prm = params()) : base(prm) {}
+    std::tuple< std::shared_ptr<BDM>, std::shared_ptr<BDM> >
+    transfer_operators(const BDM &A) {
+        std::string a = show_strip(A);
+        auto PR = base.transfer_operators(A);
+        level_log().push_back("A" + a);
+        level_log().push_back("P" + show_strip(*std::get<0>(PR)));
+        level_log().push_back("R" + show_strip(*std::get<1>(PR)));
+        return PR;
+    }
+    std::shared_ptr<BDM> coarse_operator(const BDM &A, const BDM &P, const BDM &R) const {
+        auto Ac = base.coarse_operator(A, P, R);
+        level_log().push_back("C" + show_strip(*Ac));
+        return Ac;
+    }
+};
+template <class C> unsigned block_size(const recording<C> &c) { return block_size(c.base); }
+
+typedef amgcl::runtime::mpi::solver::wrapper<BBackend> BSolver;
+typedef amgcl::mpi::amg<BBackend,
+        recording< amgcl::runtime::mpi::coarsening::wrapper<BBackend> >,
+        amgcl::runtime::mpi::relaxation::wrapper<BBackend>,
+        amgcl::mpi::direct::skyline_lu<V>,
+        amgcl::mpi::partition::merge<BBackend> > BAMG;
+} // namespace blk
+
+MOP(bsolve) {
+    std::string cls; ptree prm = config(t, cls);
+    long b = t.i(); if (b != blk::N) return "UNSUPPORTED-BLOCK-SIZE";
+    auto A = blk::bcrs(t); Parts p = parts(t);
+    std::vector<blk::Rh> f = blk::bvec(t), x0 = blk::bvec(t); long repeat = t.i();
+    if ((long)f.size() != p.total || (long)x0.size() != p.total) throw std::runtime_error("vector size");
+    std::vector<blk::Rh> fl(f.begin() + p.b(world.rank), f.begin() + p.e(world.rank)), xl(x0.begin() + p.b(world.rank), x0.begin() + p.e(world.rank));
+    auto D = blk::dist(*A, p);
+    level_log().clear();
+    quiet_cout q;
+    if (cls != "amg") throw std::invalid_argument("precond.class");
+    amgcl::mpi::make_solver<blk::BAMG, blk::BSolver> solve(world, D, prm);
+    size_t it = 0; double res = 0;
+    std::ostringstream os;
+    for (int k = 0; k < (int)repeat; ++k) {
+        if (k) { blk::Rh z; for (int c = 0; c < blk::N; ++c) z(c) = 0.0; std::fill(xl.begin(), xl.end(), z); }
+        std::tie(it, res) = solve(fl, xl);
+        os << (k ? " again " : "") << "it=" << it << " res=" << show(res) << " bits=" << bits(res);
+    }
+    os << " x=" << blk::show_bvec(xl) << " L " << level_log().size();
+    for (auto &s : level_log()) os << " " << s;
+    return os.str();
+}
+
+// bdirect <b> A parts f : distributed direct solver on a block system (consolidation of block rows / rhs blocks on the master rank)
+MOP(bdirect) {
+    long b = t.i(); if (b != blk::N) return "UNSUPPORTED-BLOCK-SIZE";
+    auto A = blk::bcrs(t); Parts p = parts(t); std::vector<blk::Rh> f = blk::bvec(t);
+    if ((long)f.size() != p.total) throw std::runtime_error("vector size");
+    std::vector<blk::Rh> fl(f.begin() + p.b(world.rank), f.begin() + p.e(world.rank));
+    blk::Rh nanv; for (int c = 0; c < blk::N; ++c) nanv(c) = std::numeric_limits<double>::quiet_NaN();
+    std::vector<blk::Rh> xl(fl.size(), nanv), x2(fl.size(), nanv);
+    auto D = blk::dist(*A, p);
+    amgcl::mpi::direct::skyline_lu<blk::V> S(world, *D);
+    S(fl, xl);
+    S(fl, x2);                                   // the solver object is reusable
+    return "x=" + blk::show_bvec(xl) + " again x=" + blk::show_bvec(x2);
+}
+
 // ---------------------------------------------------------------- main loop
 int main(int argc, char **argv) {
     MPI_Init(&argc, &argv);
